@@ -75,9 +75,16 @@ func (a aff) String() string {
 
 // descr: a canonical textual name for a value, stable across re-loads of the same source location
 // (parameters by name, field paths, map elements by the description of map and key).
+// descrAlias: while a helper is evaluated inline (affEval.inline), its parameters are named after the caller's
+// arguments, so that cells and accounts keep one name across the call.
+var descrAlias = map[ssa.Value]string{}
+
 func descr(v ssa.Value, depth int) string {
 	if depth > 12 {
 		return v.Name()
+	}
+	if a, ok := descrAlias[v]; ok {
+		return a
 	}
 	switch x := v.(type) {
 	case *ssa.Parameter:
@@ -179,6 +186,7 @@ type affPath struct {
 	notes            map[string][]aff    // rule-specific bags, filled by affEval.hook
 	strs             map[string][]string // rule-specific bags
 	bools            map[ssa.Value]bool  // boolean phis whose value is known on this path
+	nilness          map[ssa.Value]int   // results of inlined helpers: 1 nil, 2 certainly not nil
 }
 
 func (p *affPath) clone() *affPath {
@@ -210,6 +218,12 @@ func (p *affPath) clone() *affPath {
 		q.bools = map[ssa.Value]bool{}
 		for k, v := range p.bools {
 			q.bools[k] = v
+		}
+	}
+	if p.nilness != nil {
+		q.nilness = map[ssa.Value]int{}
+		for k, v := range p.nilness {
+			q.nilness[k] = v
 		}
 	}
 	return q
@@ -246,6 +260,14 @@ type affEval struct {
 	over    bool
 	heads   map[*ssa.BasicBlock]bool                 // segment mode: paths stop when they enter a loop head
 	hook    func(p *affPath, ins ssa.Instruction) // rule-specific bookkeeping, after the standard step
+	// inline: helpers evaluated as part of the caller's path (nil: calls are opaque). Parameters are bound to the
+	// arguments (value and name), every return path continues the caller's block after the call.
+	inline func(call *ssa.Call) *ssa.Function
+	frames []affFrame
+}
+
+type affFrame struct {
+	cont func(p *affPath, ret *ssa.Return)
 }
 
 func (e *affEval) moneyOp(call *ssa.Call) string {
@@ -442,12 +464,34 @@ func (e *affEval) walk(p *affPath, b *ssa.BasicBlock, pred *ssa.BasicBlock, visi
 			}
 		}
 	}
-	for _, ins := range b.Instrs {
+	e.walkFrom(p, b, 0, visits)
+}
+
+// walkFrom continues the path in block b at instruction index start.
+func (e *affEval) walkFrom(p *affPath, b *ssa.BasicBlock, start int, visits map[*ssa.BasicBlock]int) {
+	inCallee := b.Parent() != e.fn
+	for i := start; i < len(b.Instrs); i++ {
+		ins := b.Instrs[i]
 		if _, ok := ins.(*ssa.Phi); ok {
 			continue
 		}
+		if call, ok := ins.(*ssa.Call); ok && e.inline != nil && len(e.frames) < 4 {
+			if callee := e.inline(call); callee != nil && len(callee.Blocks) > 0 && callee != b.Parent() {
+				e.inlineCall(p, call, callee, func(q *affPath) {
+					e.walkFrom(q, b, i+1, visits)
+				})
+				return
+			}
+		}
 		e.step(p, ins)
 		if r, ok := ins.(*ssa.Return); ok {
+			if inCallee && len(e.frames) > 0 {
+				fr := e.frames[len(e.frames)-1]
+				e.frames = e.frames[:len(e.frames)-1]
+				fr.cont(p, r)
+				e.frames = append(e.frames, fr)
+				return
+			}
 			p.ret = r
 			e.emit(p)
 			return
@@ -461,6 +505,22 @@ func (e *affEval) walk(p *affPath, b *ssa.BasicBlock, pred *ssa.BasicBlock, visi
 			if bv, known := p.bools[iff.Cond]; known && bv != (si == 0) {
 				continue // the condition is a boolean whose value is known on this path
 			}
+			// `x == nil` / `x != nil` on a result of an inlined helper whose nil-ness is known on this path
+			if bo, ok := iff.Cond.(*ssa.BinOp); ok && (bo.Op == token.EQL || bo.Op == token.NEQ) && p.nilness != nil {
+				var x ssa.Value
+				if isNilConst(bo.Y) {
+					x = bo.X
+				} else if isNilConst(bo.X) {
+					x = bo.Y
+				}
+				if n, known := p.nilness[x]; known && x != nil {
+					isNil := n == 1
+					condTrue := isNil == (bo.Op == token.EQL)
+					if condTrue != (si == 0) {
+						continue
+					}
+				}
+			}
 		}
 		q := p
 		if len(b.Succs) > 1 {
@@ -472,18 +532,84 @@ func (e *affEval) walk(p *affPath, b *ssa.BasicBlock, pred *ssa.BasicBlock, visi
 			}
 			q.facts = append(q.facts, edgeFacts(b, si)...)
 		}
-		if e.inRange != nil && !e.inRange(succ) {
+		if !inCallee && e.inRange != nil && !e.inRange(succ) {
 			q.left = true
 			e.emit(q)
 			continue
 		}
-		if e.heads != nil && e.heads[succ] {
+		if !inCallee && e.heads != nil && e.heads[succ] {
 			q.endHead, q.endPred = succ, b
 			e.emit(q)
 			continue
 		}
 		e.walk(q, succ, b, visits)
 	}
+}
+
+// inlineCall evaluates callee as part of the path: parameters take the value and the name of the arguments; each
+// of its return paths binds the results (value, nil-ness) and resumes the caller through cont.
+func (e *affEval) inlineCall(p *affPath, call *ssa.Call, callee *ssa.Function, cont func(q *affPath)) {
+	args := call.Call.Args
+	saved := map[ssa.Value]*string{}
+	for i, prm := range callee.Params {
+		if i >= len(args) {
+			break
+		}
+		p.val[prm] = e.of(p, args[i])
+		name := descr(args[i], 0)
+		if old, ok := descrAlias[prm]; ok {
+			o := old
+			saved[prm] = &o
+		} else {
+			saved[prm] = nil
+		}
+		descrAlias[prm] = name
+	}
+	restore := func() {
+		for k, v := range saved {
+			if v == nil {
+				delete(descrAlias, k)
+			} else {
+				descrAlias[k] = *v
+			}
+		}
+	}
+	e.frames = append(e.frames, affFrame{cont: func(q *affPath, ret *ssa.Return) {
+		// results: the call value itself (single result) or its extracts
+		bind := func(dst ssa.Value, res ssa.Value) {
+			q.val[dst] = e.of(q, res)
+			if q.nilness == nil {
+				q.nilness = map[ssa.Value]int{}
+			}
+			if n := errNilness(res); n != 0 {
+				q.nilness[dst] = n
+			} else if _, isAlloc := res.(*ssa.Alloc); isAlloc {
+				q.nilness[dst] = 2
+			} else {
+				delete(q.nilness, dst)
+			}
+		}
+		if len(ret.Results) == 1 {
+			bind(call, ret.Results[0])
+		} else if call.Referrers() != nil {
+			for _, r := range *call.Referrers() {
+				if ex, ok := r.(*ssa.Extract); ok && ex.Index < len(ret.Results) {
+					bind(ex, ret.Results[ex.Index])
+				}
+			}
+		}
+		// the caller resumes under its own names
+		restore()
+		cont(q)
+		for i, prm := range callee.Params {
+			if i < len(args) {
+				descrAlias[prm] = descr(args[i], 0)
+			}
+		}
+	}})
+	e.walk(p, callee.Blocks[0], nil, map[*ssa.BasicBlock]int{})
+	e.frames = e.frames[:len(e.frames)-1]
+	restore()
 }
 
 func (e *affEval) emit(p *affPath) {
